@@ -70,8 +70,15 @@ func c20BackslashNewline(c *core.Check) {
 			continue
 		}
 		if k, ok := core.ConstInt(bo.Y); ok && k == '\n' {
-			if lk, ok := bo.X.(*ssa.Lookup); ok {
-				if i, ok := core.ConstInt(lk.Index); ok && i == 0 {
+			var index ssa.Value
+			switch x := bo.X.(type) {
+			case *ssa.Lookup:
+				index = x.Index
+			case *ssa.Index:
+				index = x.Index
+			}
+			if index != nil {
+				if i, ok := core.ConstInt(index); ok && i == 0 {
 					assign[a] = bo.Op == token.NEQ
 					nPrefix++
 				}
